@@ -188,6 +188,20 @@ theorem c08_verdict_twin (l1 l2 l3 other : List NetRule) (x xb : NetRule) (hx : 
     c08_verdict_web _ _ _ _ rfl this.1, c08_verdict_web _ _ _ _ rfl this.2,
     c08_verdict_dns _ _ this.1, c08_verdict_dns _ _ this.2⟩
 
+/-! #### generated-fact obligation (go/ast over the current rules/network.go) -/
+
+/-- Fields of `rules.NetworkRule` that are not matching-relevant. -/
+def nonMatchingFields : List String := ["RuleText", "Shortcut", "FilterListID", "regex", "Mutex", "invalid"]
+
+/-- As long as `negatesBadfilter` compares struct fields directly, it reads EVERY matching-relevant
+    field of `NetworkRule` from BOTH operands (a field added to the struct and forgotten here — the
+    history of `$denyallow`, `$dnstype`, `$dnsrewrite` — breaks this obligation). -/
+theorem c08_fact_all_fields_compared :
+    Facts.negatesBadfilterReadsR.any (fun x => Facts.networkRuleFields.contains x) = true →
+    (Facts.networkRuleFields.filter (fun x => !nonMatchingFields.contains x)).all
+      (fun x => Facts.negatesBadfilterReadsF.contains x && Facts.negatesBadfilterReadsR.contains x) = true := by
+  decide
+
 /-! #### non-vacuity and the old shape (D7) -/
 
 def exR : NetRule := { text := lit "||e.org^", pattern := lit "||e.org^" }
